@@ -268,6 +268,9 @@ func c44Apply(base c44Srv, chg []string, vers1 uint16, suite1 uint16) c44Srv {
 		case "auth-require-verify-rule":
 			s.Auth = int(bfe_tls.RequireAndVerifyClientCert)
 			s.RuleClientAuth = true
+		case "auth-verify-other-ca":
+			s.Auth = int(bfe_tls.RequireAndVerifyClientCert)
+			s.CA = "other"
 		case "auth-none":
 			s.Auth = int(bfe_tls.NoClientCert)
 		case "ca-swapped":
@@ -638,7 +641,7 @@ func c44DirectBatch(rt *rapid.T, rec *ev.Rec) {
 // ---- generators
 
 var c44Changes = []string{"rotate-key", "tickets-disabled", "cache-disabled", "other-cache", "suite-removed", "min-raised", "max-lowered",
-	"auth-require-any", "auth-require-verify", "auth-require-verify-rule", "auth-none", "ca-swapped", "grade-A", "chacha-off", "cert-swapped"}
+	"auth-require-any", "auth-require-verify", "auth-require-verify-rule", "auth-verify-other-ca", "auth-none", "ca-swapped", "grade-A", "chacha-off", "cert-swapped"}
 
 func drawC44Base(rt *rapid.T) *c44Base {
 	b := &c44Base{}
